@@ -338,6 +338,26 @@ func c19Run(c *Ctx) {
 			c19Judge(c, &Case{Gen: "clean-programs", Src: src, Stdin: "a\n", X: map[string]string{"tail": "clean"}})
 		}
 	}
+	// programs from the general generator, fault-free and with one planted fault: every one classified through the binary
+	{
+		rg := c.Rand("general")
+		for k := 0; k < c.N(400, 20000); k++ {
+			g := NewPG(rg, 8+rg.Intn(30))
+			g.Faults = k%3 == 0
+			src := g.Program(3)
+			if c.Mine() {
+				c19Judge(c, &Case{Gen: "generated-programs", Src: src, Stdin: "a\nb\n", X: map[string]string{"tail": "generated"}})
+			}
+		}
+		for _, src := range []string{
+			Lines(For(Var("i", "0"), "i < 4", "i = i + 1", "{ "+Print("1 << i")+" }"), Print("12 >> 0"), Print("0 << 0"), Print("5 % 5"), Print("0 / 1"), Print("0 ** 0"), Print(`"end"`)),
+			Lines(Var("seen", "0"), Var("i", "0"), While("i < 6", "{ i = i + 1; "+If("i % 2 == 0", "{ "+Continue()+" }")+" seen = seen + i; }"), Print("seen"), Var("w", BI("input")), While(`w == "a"`, "{ w = "+BI("input")+"; "+Continue()+" }"), Print("w")),
+		} {
+			if c.Mine() {
+				c19Judge(c, &Case{Gen: "clean-programs", Src: src, Stdin: "a\nb\n", X: map[string]string{"tail": "clean"}})
+			}
+		}
+	}
 	// recursion tens of thousands of calls deep (bounded): clean, and failing at the bottom
 	for _, depth := range []int{5000, 40000, 60000} {
 		D := fmt.Sprint(depth)
